@@ -256,3 +256,15 @@ impl Shards {
         Ok(k)
     }
 }
+
+/// A sink that accepts at most `cap` bytes per `write` call (legal for `std::io::Write`).
+pub struct Chunked { pub data: Vec<u8>, pub cap: usize }
+impl std::io::Write for Chunked {
+    fn write(&mut self, buf: &[u8]) -> std::io::Result<usize> {
+        let n = buf.len().min(self.cap);
+        self.data.extend_from_slice(&buf[..n]);
+        Ok(n)
+    }
+    fn flush(&mut self) -> std::io::Result<()> { Ok(()) }
+}
+
